@@ -30,6 +30,9 @@ TEXTS = {
     # erroneous inputs that do not start with their first token
     "erroneous-leading-newline": "\n{ a = ; }\n",
     "erroneous-leading-space": " { a = 1; }}\n",
+    # bytes that are not UTF-8 (a file saved as Latin-1): there is no text for the library to work on, so every command is an error
+    "latin1-comment": "# caf\u00e9\n{\n  a = 1;\n  b = 2;\n}\n".encode("latin-1"),
+    "latin1-string": "{\n  a = 1;\n  b = \"\u00fc\";\n}\n".encode("latin-1"),
 }
 COMMANDS = [("test",), ("set", "a", "2"), ("set", "z", '"s"'), ("set", "a", "{"), ("set", "a..b", "1"), ("set", "@v", "3"),
             ("rm", "a"), ("rm", "zz"), ("rm", ""), ("set", "m.x", "[ 1 ]"), ("bogus",), ()]
@@ -40,6 +43,11 @@ def library(cmd, text):
     from nix_manipulator import parse
     from nix_manipulator.cli.manipulations import remove_value, set_value
 
+    if isinstance(text, bytes):
+        try:
+            text = text.decode("utf-8")
+        except UnicodeDecodeError:
+            return ("", "nonzero")
     if cmd and cmd[0] == "test":
         from bounded import nixgen as G
 
@@ -68,14 +76,14 @@ def run_cli(cmd, text, channel, tmpdir):
     args = [sys.executable, "-m", "nix_manipulator"] + list(cmd[:1])
     if channel == "file" and cmd and cmd[0] in ("test", "set", "rm"):
         p = os.path.join(tmpdir, f"in-{os.getpid()}.nix")
-        with open(p, "w", encoding="utf-8", newline="") as fh:
-            fh.write(text)
+        with open(p, "wb") as fh:
+            fh.write(text if isinstance(text, bytes) else text.encode("utf-8"))
         args += ["-f", p]
-        stdin = ""
+        stdin = b""
     else:
-        stdin = text
+        stdin = text if isinstance(text, bytes) else text.encode("utf-8")
     args += list(cmd[1:])
-    r = subprocess.run(args, input=stdin.encode("utf-8"), capture_output=True, env=env, timeout=60)
+    r = subprocess.run(args, input=stdin, capture_output=True, env=env, timeout=60)
     return r.stdout.decode("utf-8", "replace"), r.returncode, r.stderr.decode("utf-8", "replace")
 
 
@@ -141,11 +149,15 @@ def inprocess_history(_=None):
     return bad
 
 
+def _show(text):
+    return text if isinstance(text, str) else "bytes:" + text.hex()
+
+
 def run(tier, seed):
     t0 = time.time()
     items = [(t, c, ch) for t in TEXTS for c in COMMANDS for ch in ("stdin", "file")]
     if tier == "quick":
-        items = [it for i, it in enumerate(items) if it[2] == "file" or it[0] in ("canonical", "erroneous", "empty", "erroneous-leading-newline")]
+        items = [it for i, it in enumerate(items) if it[2] == "file" or it[0] in ("canonical", "erroneous", "empty", "erroneous-leading-newline", "latin1-comment")]
     with mp.get_context("fork").Pool(16) as pool:
         res = pool.map(eval_case, items, chunksize=2)
         hist = pool.apply(inprocess_history)
@@ -158,17 +170,17 @@ def run(tier, seed):
     for it, sym in zip(items, res):
         if sym:
             sig = f"{sym}|{' '.join(it[1])}|{it[0]}|{it[2]}"
-            if "\r" in TEXTS[it[0]] and it[2] == "file":
+            if isinstance(TEXTS[it[0]], str) and "\r" in TEXTS[it[0]] and it[2] == "file":
                 # -f FILE opens in universal-newline mode: a lone CR becomes LF, stdin keeps it (one defect, any command)
                 sig = "stdin-and-file-channel-disagree-on-carriage-returns"
             vio.append(dict(check="cli", signature=sig, what=f"C16 {sym}: nima {' '.join(it[1])} on {it[0]} via {it[2]}", has_input=True,
-                            inputs={"text": TEXTS[it[0]], "cmd": list(it[1]), "channel": it[2], "tname": it[0]},
-                            failing_input={"inputs": {"text": TEXTS[it[0]], "cmd": list(it[1]), "channel": it[2]}, "observed": sym,
+                            inputs={"text": _show(TEXTS[it[0]]), "cmd": list(it[1]), "channel": it[2], "tname": it[0]},
+                            failing_input={"inputs": {"text": _show(TEXTS[it[0]]), "cmd": list(it[1]), "channel": it[2]}, "observed": sym,
                                            "origin": "subprocess run"}))
     return dict(evaluations=len(items) + 8, distinct_nontrivial=len(items) + 8,
                 rule=f"(plus one history of 8 in-process main() calls with their own stdin) {len(TEXTS)} input texts (canonical, non-canonical, erroneous, empty, ...) x {len(COMMANDS)} command lines (succeeding and "
                      "failing set/rm/test, unknown command, none) x input channel (stdin, -f FILE), run as `python -m nix_manipulator` and compared with the in-process library result",
-                samples=[dict(cmd=list(i[1]), text=TEXTS[i[0]], channel=i[2]) for i in items[:3]], exhaustive=True, violations=vio,
+                samples=[dict(cmd=list(i[1]), text=_show(TEXTS[i[0]]), channel=i[2]) for i in items[:3]], exhaustive=True, violations=vio,
                 seconds=time.time() - t0)
 
 
